@@ -4,20 +4,29 @@ package blkkit
 
 import (
 	"encoding/json"
+	"flag"
 	"fmt"
 	"os"
+	"path/filepath"
 	"sort"
 	"strings"
+	"sync/atomic"
+	"syscall"
 	"time"
 
 	"verif/vkit"
 )
 
 // Histories enumerates every event sequence of length <= depth over `alphabet` (actions other
-// than "open") on at most maxConns connections. Connections are opened in index order; an action
-// is offered only when it is enabled in the connection's state (Enabled / After); a closed
-// connection's index is not reused. The empty history is included.
-func Histories(depth, maxConns int, alphabet []string) [][]Ev {
+// than the opening one) on at most maxConns connections. Connections are opened in index order
+// by the opening action ("open", or e.g. "wsopen" when given); an action is offered only when it
+// is enabled in the connection's state (Enabled / After); a closed connection's index is not
+// reused. The empty history is included.
+func Histories(depth, maxConns int, alphabet []string, openAct ...string) [][]Ev {
+	opener := "open"
+	if len(openAct) > 0 {
+		opener = openAct[0]
+	}
 	var out [][]Ev
 	state := make([]string, maxConns)
 	var cur []Ev
@@ -30,8 +39,8 @@ func Histories(depth, maxConns int, alphabet []string) [][]Ev {
 		for i := 0; i < maxConns; i++ {
 			if state[i] == "" {
 				if i == 0 || state[i-1] != "" {
-					state[i] = After("", "open")
-					cur = append(cur, Ev{i, "open"})
+					state[i] = After("", opener)
+					cur = append(cur, Ev{i, opener})
 					rec()
 					cur = cur[:len(cur)-1]
 					state[i] = ""
@@ -53,6 +62,17 @@ func Histories(depth, maxConns int, alphabet []string) [][]Ev {
 	}
 	rec()
 	return out
+}
+
+// Conns is the number of connections a history uses.
+func Conns(h []Ev) int {
+	n := 0
+	for _, e := range h {
+		if e.C+1 > n {
+			n = e.C + 1
+		}
+	}
+	return n
 }
 
 // Has reports whether the history contains one of the actions.
@@ -83,21 +103,66 @@ type Driver struct {
 	known        map[string]bool
 	spent        time.Duration
 	ncases       int
+	item         int
+	claimDir     string
+	claimInit    bool
+	cpu0         time.Duration
+	parked0      int64
+}
+
+func cpuNow() time.Duration {
+	var ru syscall.Rusage
+	if syscall.Getrusage(syscall.RUSAGE_SELF, &ru) != nil {
+		return 0
+	}
+	return time.Duration(ru.Utime.Nano() + ru.Stime.Nano())
+}
+
+// mine decides whether this worker runs work item k. The items are NOT dealt out round-robin
+// like the scheduled scenarios: the workers of a run take them one by one from a common list
+// (an exclusive file creation per item in the run's scratch directory), so a worker that is
+// still busy with its share of scheduled scenarios takes few or none and does not become the
+// long pole of the check. This changes only who runs what: every item is run by exactly one
+// worker. Without a run directory (single process, replay) the shard selector decides.
+func (d *Driver) mine(k int) bool {
+	if !d.claimInit {
+		d.claimInit = true
+		d.cpu0 = cpuNow()
+		d.parked0 = atomic.LoadInt64(&ParkedNominal)
+		if f := flag.Lookup("out"); f != nil && f.Value.String() != "" && d.Shard.N > 1 {
+			d.claimDir = filepath.Dir(f.Value.String())
+		}
+	}
+	if d.claimDir == "" {
+		return d.Shard.N <= 1 || k%d.Shard.N == d.Shard.I
+	}
+	f, err := os.OpenFile(filepath.Join(d.claimDir, fmt.Sprintf("blk-%s-%d.claim", d.Property, k)), os.O_CREATE|os.O_EXCL|os.O_WRONLY, 0o644)
+	if err != nil {
+		return false
+	}
+	_ = f.Close()
+	return true
 }
 
 // Finish books the time this worker spent in the part (summed over the workers in the evidence).
 func (d *Driver) Finish() {
 	d.Part.Count("part_worker_milliseconds_total", int(d.spent.Milliseconds()))
+	if d.claimInit {
+		d.Part.Count("part_cpu_milliseconds_total", int((cpuNow() - d.cpu0).Milliseconds()))
+	}
+	d.Part.Count("part_parked_nominal_milliseconds_total", int((atomic.LoadInt64(&ParkedNominal)-d.parked0)/1e6))
 	d.Part.Count("waits_that_hit_the_cap", 0)
 	d.Part.Count("histories_with_transfer", 0)
 	if os.Getenv("VERIF_TIMING") != "" {
-		fmt.Fprintf(os.Stderr, "BLK-PART shard %d/%d: %d cases in %.1fs\n", d.Shard.I, d.Shard.N, d.ncases, d.spent.Seconds())
+		fmt.Fprintf(os.Stderr, "BLK-PART shard %d/%d: %d cases in %.1fs wall, %.1fs cpu, %.1fs nominal sleep\n", d.Shard.I, d.Shard.N, d.ncases, d.spent.Seconds(), (cpuNow() - d.cpu0).Seconds(), float64(atomic.LoadInt64(&ParkedNominal)-d.parked0)/1e9)
 	}
 }
 
 // Do runs the case if it belongs to this shard.
 func (d *Driver) Do(c Case) {
-	if !d.Shard.Mine() || d.stopped {
+	k := d.item
+	d.item++
+	if d.stopped || !d.mine(k) {
 		return
 	}
 	p := d.Part
